@@ -4,17 +4,30 @@ package client
 
 import "sync"
 
+// vC04Quiet: handler bodies switch the lock monitor off around their own bookkeeping.
+var vC04Quiet bool
+
 type vH struct {
 	id    int
 	calls *[]int
 	mu    *sync.Mutex
 	act   func(id int)
+	wait  <-chan struct{} // if set: this handler starts only once the channel is closed (pins the native goroutine order)
 }
 
 func (h *vH) Handle(c *Conn, l *Line) {
+	if h.wait != nil {
+		<-h.wait
+	}
+	if vC04Quiet {
+		vWatchOn(false) // the handler's own bookkeeping is not the set's business
+	}
 	h.mu.Lock()
 	*h.calls = append(*h.calls, h.id)
 	h.mu.Unlock()
+	if vC04Quiet {
+		vWatchOn(true)
+	}
 	if h.act != nil {
 		h.act(h.id)
 	}
@@ -133,6 +146,7 @@ func vGenNames() ([]string, []int) {
 // model says, names compare case-insensitively, each operation is a single
 // critical section of the set's lock with every map access / node store inside it.
 func VerifC04Step() {
+	vC04Quiet = false
 	var calls []int
 	var mu sync.Mutex
 	names, cnt := vGenNames()
@@ -194,17 +208,31 @@ func VerifC04Step() {
 		} else {
 			vAssume(nm != names[0] && nm != names[1])
 		}
+		// the snapshot is observed the way a client observes it: dispatch an event of that
+		// name and see which handlers run (each exactly once, nothing else)
+		calls = nil
+		vC04Quiet = true
 		vWatchOn(true)
-		got := hs.getHandlers(nm)
+		hs.dispatch(&Conn{cfg: NewConfig("me")}, &Line{Cmd: nm})
 		vWatchOn(false)
-		var ids []int
-		for _, hn := range got {
-			ids = append(ids, hn.handler.(*vH).id)
-		}
+		vC04Quiet = false
+		vRunPending()
+		mu.Lock()
+		ids := append([]int(nil), calls...)
+		mu.Unlock()
+		want := []int(nil)
 		if which < 2 {
-			vAssert(vSameInts(ids, before[which]), "snapshot-model")
-		} else {
-			vAssert(len(ids) == 0, "snapshot-model")
+			want = before[which]
+		}
+		vAssert(len(ids) == len(want), "snapshot-model")
+		for _, id := range want {
+			n := 0
+			for _, c := range ids {
+				if c == id {
+					n++
+				}
+			}
+			vAssert(n == 1, "snapshot-model")
 		}
 		vAssert(vSameInts(vAbs(hs, names[0]), before[0]) && vSameInts(vAbs(hs, names[1]), before[1]), "snapshot-pure")
 	}
@@ -220,6 +248,7 @@ func VerifC04Step() {
 // once, nothing else runs, and handlers that remove themselves / a sibling or
 // register new handlers from inside neither deadlock nor disturb the others.
 func VerifC04Dispatch() {
+	vSetOpt("deadlockIsViolation", 1) // "registering or removing handlers from within a handler neither deadlocks ..."
 	var calls []int
 	var mu sync.Mutex
 	names, cnt := vGenNames()
@@ -239,6 +268,16 @@ func VerifC04Dispatch() {
 				conn.HandleFunc(names[0], func(*Conn, *Line) { lateRan++ })
 				conn.HandleBG(names[1], HandlerFunc(func(*Conn, *Line) { lateRan++ }))
 			}
+		}
+		if act != 0 {
+			// the handlers of one event run concurrently; let the acting one finish first, so that what it
+			// does to its siblings happens before they run, in the executor and natively alike
+			acted := make(chan struct{})
+			for _, hn := range nodes[0][1:] {
+				hn.handler.(*vH).wait = acted
+			}
+			inner := first.act
+			first.act = func(id int) { inner(id); close(acted) }
 		}
 	}
 	// the event's verb in any letter case
